@@ -20,7 +20,8 @@ RULE = (
     "containers flipped, every dict (update map, noises, sensors, calibration map) built in reverse insertion order. "
     "Child interpreters are started with different PYTHONHASHSEED values (quick: 4, thorough: 24; 0 plus values derived "
     "from VERIF_SEED); each generates the whole batch through cpp.compile_ekf and cpp.compile (twice per process) and "
-    "python.compile_ekf and reports sha256(header), sha256(source) and the Python arglist/readings layout. Oracle: all "
+    "python.compile_ekf (every second child walks the batch in reverse order, so a definition is generated after different "
+    "predecessors in different children) and reports sha256(header), sha256(source) and the Python arglist/readings layout. Oracle: all "
     "hashes and layouts of a definition are identical across seeds, across variant vs original, and across the two "
     "generations inside one process. Non-trivial = the definition has >=3 symbols in a set-typed category and >=2 "
     "sensors AND the children actually observed >=2 different raw iteration orders of that set (measured); distinct = "
@@ -55,6 +56,13 @@ def batches(nbatch):
             m = draw(models.model_specs(names="ident", n_state=(3, 5), n_control=(1, 3), n_calib=(0, 2), n_sensors=(2, 3),
                                         n_readings=(1, 3), depth=2, sensor_depth=1, innovation=("none", "k")))
             m["containers"] = {"state": "set", "control": "set", "calib": draw(st.sampled_from(["set", "set", "list"]))}
+            if specs and draw(st.booleans()):
+                # reuse the previous definition's sensor names (different expressions / readings behind the same names)
+                prev = sorted(specs[-1]["model"]["sensors"])
+                ren = dict(zip(sorted(m["sensors"]), prev))
+                m["sensors"] = {ren.get(k, k): v for k, v in m["sensors"].items()}
+                m["sensor_noises"] = {ren.get(k, k): v for k, v in m["sensor_noises"].items()}
+                m["symbol_keyed"] = [ren.get(k, k) for k in m.get("symbol_keyed", [])]
             specs.append({"model": m, "perm": draw(st.integers(0, 5))})
         return {"batch": specs}
 
@@ -67,9 +75,10 @@ def identity_variant(m, perm):
     return c13.twin_of(m, ident, rident, perm, flip=True)
 
 
-def run_child(hashseed, batch_path, wd):
+def run_child(hashseed, batch_path, wd, reverse=False):
     env = dict(os.environ)
     env["PYTHONHASHSEED"] = str(hashseed)
+    env["C15_REVERSED"] = "1" if reverse else "0"
     env["PYTHONPATH"] = ctxmod.VERIF + (":" + env["PYTHONPATH"] if env.get("PYTHONPATH") else "")
     r = subprocess.run([sys.executable, "-m", "vlib.c15child", batch_path, wd], capture_output=True, text=True, env=env,
                        cwd=ctxmod.VERIF, timeout=900)
@@ -92,10 +101,10 @@ def case(spec, ctx):
             json.dump(items, fh)
         seeds = seeds_for(ctx.base_seed, ctx.budget.get("seeds", 4))
         results = {}
-        for hs in seeds:
+        for j, hs in enumerate(seeds):
             cwd = os.path.join(wd, f"hs{hs}")
             os.makedirs(cwd, exist_ok=True)
-            results[hs] = run_child(hs, path, cwd)
+            results[hs] = run_child(hs, path, cwd, reverse=(j % 2 == 1))
             ctx.add_extra("child_interpreters", 1)
     finally:
         H.cleanup(wd)
